@@ -36,7 +36,7 @@ KEYS_PT = ("center", "shift", "rot_origin", "post_origin")
 def budget(tier):
     if tier == "quick":
         return dict(max_examples=70, workers=6, time_s=170, min_cases=30)
-    return dict(max_examples=1500, workers=16, time_s=1200, min_cases=400)
+    return dict(max_examples=1500, workers=16, time_s=1200, min_cases=60)
 
 
 def scale_shape(shape, s):
